@@ -305,6 +305,12 @@ class Model:
         self.canonicalised = [q for q, f in self.functions.items() if canonicalise(self, f)]
         for f in self.functions.values():
             self._devirtualise_locals(f)
+        # attributes that hold a list of exactly N cells wherever they are bound: lets the loop normaliser read
+        # `for i in range(N - 1, -1, -1): .. self.a[i] ..` as the loop over `reversed(list(enumerate(self.a)))`
+        from . import loopnorm as _ln
+        sites = self._attr_sites()
+        init_only = {a for a, d in sites.items() if isinstance(d, dict) and d["init_only"] and not d["mutated"]} if not sites.get("*") else set()
+        _ln.SIZED_ATTRS = _ln.sized_attributes([f.node for f in self.functions.values()], init_only)
 
     def _properties_to_methods(self, known: set, short) -> None:
         """A read-only `@property` the confirmed tree does not have is a parameterless helper method in disguise: reads `x.P` become
